@@ -395,6 +395,22 @@ fn protect_produced_text(token: &mut types::Token) {
 /// Same, for a token of which only parts were produced: `produced_gt` tells
 /// whether one of the inserted values contains a `>` (a `>` the user typed,
 /// as in `echo $A>file`, still is a redirection).
+/// Text that an expansion produced is final. The passes of `do_expansion`
+/// run one after the other over the same tokens, so characters of produced
+/// text that would start another expansion - `$(`, a backquote, `{` - are
+/// masked by private-use characters until all passes are done.
+fn mask_produced(text: &str) -> String {
+    text.replace("$(", "\u{E000}(")
+        .replace('`', "\u{E001}")
+        .replace('{', "\u{E002}")
+}
+
+fn unmask_produced(text: &str) -> String {
+    text.replace('\u{E000}', "$")
+        .replace('\u{E001}', "`")
+        .replace('\u{E002}', "{")
+}
+
 /// The number of leading `NAME=value` words of a command: they are its
 /// assignments (types.rs::drain_env_tokens), whatever an expansion puts into
 /// their value - they are not protected like argument words.
@@ -456,7 +472,7 @@ pub fn expand_glob(tokens: &mut types::Tokens) {
                                     // type `ls .*rc` instead of `ls *rc`
                                     continue;
                                 }
-                                result.push(file_path.to_string());
+                                result.push(mask_produced(&file_path));
                                 is_empty = false;
                             }
                             Err(e) => {
@@ -890,7 +906,7 @@ pub fn expand_env(sh: &Shell, tokens: &mut types::Tokens) {
                         produced_gt = true;
                     }
                     _token.push_str(&head);
-                    _token.push_str(&val);
+                    _token.push_str(&mask_produced(&val));
                     rest = tail;
                 }
                 None => break,
@@ -1009,7 +1025,7 @@ fn do_command_substitution_for_dollar(sh: &mut Shell, tokens: &mut types::Tokens
                 produced_gt = true;
             }
             line.push_str(&rest[..start]);
-            line.push_str(&output_txt);
+            line.push_str(&mask_produced(&output_txt));
             rest = rest[end..].to_string();
         }
         line.push_str(&rest);
@@ -1033,7 +1049,7 @@ fn do_command_substitution_for_dot(sh: &mut Shell, tokens: &mut types::Tokens) {
     for (sep, token) in tokens.iter() {
         let new_token: String;
         if sep == "`" {
-            new_token = run_for_substitution(sh, token);
+            new_token = mask_produced(&run_for_substitution(sh, token));
         } else if sep == "\"" || sep.is_empty() {
             let re;
             if let Ok(x) = Regex::new(r"^([^`]*)`([^`]+)`(.*)$") {
@@ -1069,7 +1085,7 @@ fn do_command_substitution_for_dot(sh: &mut Shell, tokens: &mut types::Tokens) {
                         Some(n) => {
                             let _output = run_for_substitution(sh, &rest[b + 1..b + 1 + n]);
                             _item.push_str(&rest[..b]);
-                            _item.push_str(&_output);
+                            _item.push_str(&mask_produced(&_output));
                             rest = rest[b + 2 + n..].to_string();
                         }
                         None => {
@@ -1127,6 +1143,11 @@ pub fn do_expansion(sh: &mut Shell, tokens: &mut types::Tokens) {
     expand_glob(tokens);
     do_command_substitution(sh, tokens);
     expand_brace_range(tokens);
+    for token in tokens.iter_mut() {
+        if token.1.contains(|c| ('\u{E000}'..='\u{E002}').contains(&c)) {
+            token.1 = unmask_produced(&token.1);
+        }
+    }
 }
 
 pub fn trim_multiline_prompts(line: &str) -> String {
